@@ -87,12 +87,13 @@ def gen_ladder(tier, seed, work):
 
 def gen_threads_and_ladder(tier, seed, work):
     a, sa = gen_threads(tier, seed, work)
-    b, sb = gen_ladder(tier, seed, work)
-    a.update(b)
     sa = dict(sa)
-    sa['ladder'] = sb
-    sa['states'] = sa.get('states', 0) + sb.get('states', 0)
-    sa['distinct'] = sa.get('distinct', 0) + sb.get('distinct', 0)
+    for name, g in (('ladder', gen_ladder), ('api', gen_api)):
+        b, sb = g(tier, seed, work)
+        a.update(b)
+        sa[name] = sb
+        sa['states'] = sa.get('states', 0) + sb.get('states', 0)
+        sa['distinct'] = sa.get('distinct', 0) + sb.get('distinct', 0)
     return a, sa
 
 
@@ -119,3 +120,28 @@ def gen_order(tier, seed, work):
             f.write(json.dumps(it) + '\n')
     return {'orders': path}, {'module': 'MC_Order', 'cfg': 'MC_Order_gen', 'states': res.get('states', 0),
                               'distinct': res.get('distinct', 0), 'orders': len(uniq), 'wall_s': round(res['wall'], 2)}
+
+
+def gen_api(tier, seed, work):
+    """every history of 4 calls of the object-world model MC_Api (generator config)"""
+    res = tlc.run_tlc(os.path.join(tlc.SPEC, 'mc', 'MC_Api.tla'), os.path.join(tlc.SPEC, 'mc', 'MC_Api_gen.cfg'),
+                      workers=1, xmx='6g', xss='64m')
+    if 'Model checking completed. No error has been found.' not in res['out']:
+        raise tlc.MachineryError('S2C generator MC_Api_gen failed\n%s' % res['out'][-3000:])
+    items = parse_s2c(res['out'])
+    seen, uniq = set(), []
+    for it in items:
+        k = json.dumps(it)
+        if k not in seen:
+            seen.add(k)
+            uniq.append(it)
+    import random
+    random.Random(seed).shuffle(uniq)
+    if tier == 'quick':
+        uniq = uniq[:1200]
+    path = os.path.join(work, 'api_hist.ndjson')
+    with open(path, 'w') as f:
+        for it in uniq:
+            f.write(json.dumps(it) + '\n')
+    return {'api_hist': path}, {'module': 'MC_Api', 'cfg': 'MC_Api_gen', 'states': res.get('states', 0),
+                                'distinct': res.get('distinct', 0), 'histories': len(uniq), 'wall_s': round(res['wall'], 2)}
